@@ -84,6 +84,14 @@ def generate(ctx):
     for v in common.scalar_roots() + [('a', [('u', 1), ('u', 2), ('u', 5)]), ('a', []), ('a', [('u', 5)]), ('o', [(b'a', ('u', 5))]), ('o', [])]:
         for e in preds:
             trial(v, common.path_text([('P', e)]), True)
+    # a single member step on roots that are not objects -- in particular an ARRAY OF STRINGS holding the name: a member step
+    # selects nothing there, so existence is false (a seeded fast path answered path_exists through exists_any_keys, which on an
+    # array looks among the string elements)
+    S = lambda b: ('s', b)
+    for v in [('a', [S(b'a'), S(b'b')]), ('a', [S(b'a')]), ('a', [('a', [S(b'a')])]), S(b'a'), ('a', [S(b'b'), S(b'a'), ('o', [(b'a', ('u', 1))])]),
+              ('o', [(b'a', ('u', 1))]), ('o', [(b'b', S(b'a'))]), ('a', [])]:
+        for p in ('R;D61', 'R;K61', 'R;O61', 'R;D61;D61', 'R;B;D61', 'R;D62'):
+            trial(v, p, False)
     # ONE Selector object reused for a sequence of calls and documents (exists, select, predicate_match, select on another
     # document, exists on it, select on the first again, twice): every answer must be what a fresh selector gives (a seeded
     # per-selector scratch queue kept the positions of an `exists` that returned true)
